@@ -248,7 +248,8 @@ def oracle_hist(sp, parts, obs):
         if obs["read"] is not None or any(v != 0 for r in img for v in r):
             bad.append(("inactive_records", "inactive screen recorded a beam", False))
         if obs["out"] != [dict(p, **{}) for p in strip(parts)]:
-            bad.append(("inactive_passthrough", "inactive screen changed the beam", False))
+            bad.append(("inactive_passthrough", {"what": "inactive screen changed the beam", "is_blocking": sp["blocking"],
+                                                 "via_segment": bool(sp.get("via_segment")), "expected": strip(parts)[:3], "observed": obs["out"][:3]}, False))
         if (len(img), len(img[0]) if img else 0) != (ny, nx):
             bad.append(("image_shape", f"shape {(len(img), len(img[0]))} expected {(ny, nx)}", False))
         return bad
@@ -371,6 +372,8 @@ def oracle_kde(run, sp, parts_batches):
 
 
 def oracle_kde_peak(sp, p):
+    """the KDE peak pixel of a single particle (a narrow beam) == the pixel of the misaligned screen containing (x - dx, y - dy)
+    == the pixel the histogram method puts it in."""
     nx, ny = nb(sp)
     # one bandwidth serves both axes: take it from the coarser axis so that no kernel underflows to an all-zero image
     bw = 0.5 * max(sp["px"], sp["py"]) * sp["b"]
@@ -385,9 +388,16 @@ def oracle_kde_peak(sp, p):
     got = argmax2(R)
     if got is None:
         return []                        # float32 tie / underflow: numerically unspecified
+    sh = mk_screen(sp)
+    sh.track(mk_pbeam([p]))
+    hist = argmax2(sh.reading)
     if got != want:
-        f14 = sp["dy"] != 0 and got == intended_pixel(dict(sp, dy=0.0), p["x"], p["y"])
-        return [("kde_peak", {"peak": got, "expected": want}, "F14" if f14 else False)]
+        # F14 shifts the READ beam, hence both methods alike: KDE peak and histogram pixel are the pixel of the y-aligned screen
+        w0 = intended_pixel(dict(sp, dy=0.0), p["x"], p["y"]) if sp["dy"] != 0 else None
+        f14 = w0 is not None and got == w0 and hist == w0
+        return [("kde_peak", {"peak": got, "expected": want, "histogram_pixel": hist}, "F14" if f14 else False)]
+    if hist is not None and hist != got:
+        return [("kde_vs_histogram_pixel", {"kde_peak": got, "histogram_pixel": hist, "expected": want}, False)]
     return []
 
 
@@ -411,28 +421,18 @@ def gen_kde_binned(rng, b, upper):
     col, rfb = rng.randrange(0, max(1, nx - 1)), rng.randrange(0, max(1, ny - 1))     # a neighbour to the right / above exists
     x = ex[col] + fx * (ex[col + 1] - ex[col]) + Fr(sp["dx"])
     y = ey[rfb] + fy * (ey[rfb + 1] - ey[rfb]) + Fr(sp["dy"])
+    if not margin_ok(ey, y):
+        sp["dy"], y = 0.0, y - Fr(sp["dy"])      # y must be clear of the edges also as a y-aligned screen sees it (F14 signature)
     p = dict(x=float(x), y=float(y), px=0.0, py=0.0, q=rng.randrange(1, 9) / 4, s=1.0)
-    if not (Fr(p["x"]) == x and Fr(p["y"]) == y and intended_pixel(sp, p["x"], p["y"]) == (ny - 1 - rfb, col)):
+    if not (Fr(p["x"]) == x and Fr(p["y"]) == y and margin_ok(ex, x - Fr(sp["dx"])) and margin_ok(ey, y - Fr(sp["dy"])) and margin_ok(ey, y)
+            and intended_pixel(sp, p["x"], p["y"]) == (ny - 1 - rfb, col)):
         return None                      # (not reachable with dyadic pixel sizes: the position would not be exact)
     return sp, p, (float(fx), float(fy))
 
 
 def oracle_kde_binned(sp, p):
-    """binning > 1: the KDE peak pixel of a single particle (a narrow beam) == the pixel of the misaligned screen containing
-    (x - dx, y - dy) == the pixel the histogram method puts it in."""
-    bad = oracle_kde_peak(sp, p)
-    scr = mk_screen(sp)
-    scr.track(mk_pbeam([p]))
-    hist = argmax2(scr.reading)
-    bw = 0.5 * max(sp["px"], sp["py"]) * sp["b"]
-    sk = mk_screen(sp, method="kde", bw=bw)
-    sk.track(mk_pbeam([p]))
-    kde = argmax2(sk.reading)
-    if hist is not None and kde is not None and hist != kde and not bad:
-        f14 = sp["dy"] != 0 and hist == intended_pixel(dict(sp, dy=0.0), p["x"], p["y"]) == kde
-        bad.append(("kde_vs_histogram_pixel", {"kde_peak": kde, "histogram_pixel": hist, "expected": intended_pixel(sp, p["x"], p["y"])},
-                    "F14" if f14 else False))
-    return bad
+    """binning > 1: KDE peak pixel == containing pixel == histogram pixel (see oracle_kde_peak)."""
+    return oracle_kde_peak(sp, p)
 
 
 # ------------------------------------------------------------------------------------------------ direct Screen.track / screen(beam)
@@ -544,7 +544,7 @@ def main(tier, replay=None):
     common.setup_python_env()
     thorough = tier == "thorough"
     run.cov["rule"] = ("random screens (resolutions incl. non-square and not divisible by the binning, binning 1/2/4, dyadic pixel sizes and "
-                       "misalignments, active/inactive, blocking) x particle sets (1..8 particles on a dyadic lattice, never within 1/16 pixel of "
+                       "misalignments, active/inactive, blocking, inactive+blocking; tracked directly or inside a Segment) x particle sets (1..8 particles on a dyadic lattice, never within 1/16 pixel of "
                        "a bin edge, inside and outside the screen, dyadic charges and survival values) in float32 so that every value is an "
                        "exact rational; whole image / read beam / returned beam compared with the Coq model by vm_compute. Non-trivial = at least "
                        "one particle with non-zero weight inside the screen; distinct by full case content.")
@@ -589,6 +589,7 @@ def main(tier, replay=None):
         mode = rng.random()
         if mode < 0.12:
             sp["active"] = False
+            sp["blocking"] = rng.random() < 0.5      # a moved-out blocking screen: tracked directly unless via_segment
         elif mode < 0.3:
             sp["blocking"] = True
         sp["via_segment"] = rng.random() < 0.3
@@ -605,7 +606,7 @@ def main(tier, replay=None):
         run.add_case(["hist", sp, parts], nontrivial)
         run.count("screen_%dx%d_b%d" % (sp["W"], sp["H"], sp["b"]))
         run.count("misaligned_y" if sp["dy"] != 0 else "aligned_y")
-        run.count("inactive" if not sp["active"] else ("blocking" if sp["blocking"] else "active"))
+        run.count(("inactive_blocking" if sp["blocking"] else "inactive") if not sp["active"] else ("blocking" if sp["blocking"] else "active"))
         run.count("particles_inside", sum(1 for p in parts if intended_pixel(sp, p["x"], p["y"]) is not None))
         run.count("particles_outside", sum(1 for p in parts if intended_pixel(sp, p["x"], p["y"]) is None))
         record("hist", inp, oracle_hist(sp, parts, obs))
@@ -700,7 +701,9 @@ def main(tier, replay=None):
         my = gen_coord(rng, [eys], float(eys[-1]) * 0.8, sp["py"], [0.0, sp["dy"]])
         inp = dict(screen=sp, particles=parts, mu_x=mx, mu_y=my)
         try:
-            record("direct", inp, oracle_direct(sp, parts, mx, my))
+            for item in oracle_direct(sp, parts, mx, my):
+                d = item[1] if isinstance(item[1], dict) else {}
+                record("direct", dict(inp, screen=dict(sp, active=d.get("is_active", sp["active"]), blocking=d.get("is_blocking", sp["blocking"]))), [item])
         except Exception as exn:  # noqa
             new_bad.append(dict(kind="direct", clause="raises", detail=repr(exn)[:300], **inp))
         run.add_case(["direct", sp, parts, mx, my], True)
